@@ -71,7 +71,9 @@ Definition accept_welcome (s : st) (id : N) : st * wres :=
     let s1 := consume_kp (set_mls s (aset N.eqb (w_gid wr) (i_state w) (mls s))) (i_kp w) in
     let s2 := set_welcomes s1 (aset N.eqb id (mkW (w_gid wr) WS_ACCEPTED (w_wrapper wr) w) (welcomes s1)) in
     match gget (w_gid wr) (groups s2) with
-    | Some r => (set_groups s2 (aset N.eqb (w_gid wr) (mkG GS_ACTIVE (g_epoch r) (g_data r) (g_last r) true) (groups s2)), WDone)
+    (* since the fix: epoch and group data of the record are taken from the MLS state actually joined (sync_group_metadata_from_mls),
+       whichever invitation wrote the pending record *)
+    | Some r => (set_groups s2 (aset N.eqb (w_gid wr) (mkG GS_ACTIVE (i_epoch w) (i_data w) (g_last r) true) (groups s2)), WDone)
     | None => (s2, WDone)
     end
   end.
@@ -98,4 +100,13 @@ Definition note_message (s : st) (g n : N) : st :=
   | None => s
   end.
 
+(* the member processes the commit that removes it: the record of an active group becomes inactive (the MLS group stays
+   in storage, unusable) *)
+Definition evict (s : st) (g : N) : st :=
+  match gget g (groups s) with
+  | Some r => if g_state r =? GS_ACTIVE
+              then set_groups s (aset N.eqb g (mkG GS_INACTIVE (g_epoch r) (g_data r) (g_last r) (g_su_required r)) (groups s))
+              else s
+  | None => s
+  end.
 Definition empty_st (kps0 : list (N * bool)) : st := mkSt [] [] [] [] kps0.
